@@ -289,6 +289,25 @@ Definition with_mfdir (fl : flags) (b : bool) : flags :=
   {| f_keep := f_keep fl; f_force := f_force fl; f_hashfast := f_hashfast fl; f_compile := f_compile fl;
      f_debug := f_debug fl; f_mfdir := b |}.
 
+(* [top_named]: the directory Invoke is given is itself called "magefiles" (mage -d magefiles):
+   inv.UsesMagefiles() = (filepath.Base(inv.Dir) == "magefiles") is what Magefiles() gets as
+   isMagefilesDirectory, so the "files without the mage tag" listing pass is not made there either. *)
+Definition invoke_named (w : world) (faults : step -> bool) (fl : flags) (top_named orig_has_files : bool) (d : fs)
+  : fs * nat :=
+  let d1 := rs w d in                                               (* removeStaleMainfile(inv.Dir) *)
+  match lookup d1 magefilesDir with
+  | Some (Dir sub) =>
+      let sub1 := rs w sub in                                       (* removeStaleMainfile(inv.Dir/magefiles) *)
+      let d2 := set magefilesDir (Dir sub1) d1 in
+      if orig_has_files
+      then invoke_dir w faults (with_mfdir fl top_named) d2       (* warning, inv.Dir = originalDir *)
+      else let '(sub2, c) := invoke_dir w faults (with_mfdir fl true) sub1 in
+           (set magefilesDir (Dir sub2) d1, c)
+  | _ => invoke_dir w faults (with_mfdir fl top_named) d1
+  end.
+
+(* the usual case, the directory is not called magefiles: [invoke_named] with top_named = false
+   (Lifecycle_facts.invoke_is_named), kept with its own body for the files that unfold it *)
 Definition invoke (w : world) (faults : step -> bool) (fl : flags) (orig_has_files : bool) (d : fs) : fs * nat :=
   let d1 := rs w d in                                               (* removeStaleMainfile(".") *)
   match lookup d1 magefilesDir with
